@@ -277,3 +277,18 @@ func (h *hEnv) hScan() {
 	}
 	vsym.Assert(next == h.nk, "scan misses a live key")
 }
+
+// hDeepPrelude writes every key of the universe (symbolic values), flushes, and pushes the table down by whole-range
+// compactions until it sits in the given level.
+func (h *hEnv) hDeepPrelude(level int) {
+	for i := 0; i < h.nk; i++ {
+		v := vsym.Bytes("pv", 1)
+		vsym.Assert(h.e.Put(h.K[i], v) == nil, "Put failed")
+		h.present[i], h.val[i] = true, v
+	}
+	vsym.Assert(h.e.FlushImMemTables() == nil, "Flush failed")
+	for l := 0; l < level; l++ {
+		vsym.Assert(h.e.CompactRange(h.K[0], h.K[h.nk-1]) == nil, "CompactRange failed")
+	}
+	h.dirty = false
+}
